@@ -359,6 +359,13 @@ func Run(runIdx int, p *prog.Program, sch *Schedule, o Options) []Rec {
 				r.add(Rec{Ev: "timeout", Kind: miss, N: i})
 				r.mu.Unlock()
 				aborted = true
+				// drain: the expected observation did not come.  Keep answering
+				// what can be answered (remaining scheduled answers first, then
+				// anything pending) so that the final state shows whether the
+				// instance is stuck with nothing left for the environment to do.
+				if !r.drain(ctx, cancel, inst, sch.Steps[i:], o, rng) {
+					break
+				}
 				break
 			}
 			if !r.perform(ctx, cancel, inst, st, o, rng) {
@@ -528,6 +535,53 @@ func (r *runner) perform(ctx context.Context, cancel context.CancelFunc, inst *b
 		cancel()
 	case "sleep":
 		time.Sleep(time.Duration(st.N) * time.Millisecond)
+	}
+	return true
+}
+
+// drain answers the remaining scheduled answers whose request exists, then
+// every other pending request (empty result), until nothing new appears for a
+// while.
+func (r *runner) drain(ctx context.Context, cancel context.CancelFunc, inst *bpmn.Process, rest []Step, o Options, rng *rand.Rand) bool {
+	quiet := 0
+	for budget := 0; budget < 200 && quiet < 4; budget++ {
+		var st *Step
+		r.mu.Lock()
+		for i := range rest {
+			if rest[i].Op != "answer" {
+				continue
+			}
+			if q := r.findReq(rest[i].Node, rest[i].Occ); q != nil && !q.answered {
+				st = &rest[i]
+				break
+			}
+		}
+		if st == nil {
+			ids := make([]string, 0, len(r.reqs))
+			for id := range r.reqs {
+				ids = append(ids, id)
+			}
+			sort.Strings(ids)
+		outer:
+			for _, id := range ids {
+				for _, q := range r.reqs[id] {
+					if !q.answered {
+						st = &Step{Op: "answer", Node: id, Occ: q.occ, Vars: map[string]int{}}
+						break outer
+					}
+				}
+			}
+		}
+		r.mu.Unlock()
+		if st == nil {
+			quiet++
+			time.Sleep(60 * time.Millisecond)
+			continue
+		}
+		quiet = 0
+		if !r.perform(ctx, cancel, inst, st, o, rng) {
+			return false
+		}
 	}
 	return true
 }
